@@ -243,7 +243,7 @@ def keyword_vocab(ctx, repo):
             ctx.ob("FEA-kw", f.where, f"{q}.asFea prints leading keyword `{w}`", ok, "" if ok else "the printed text starts with a word the parser does not treat as a keyword: print/parse is no longer a fixed point")
 
 
-ALL = [three_way, lookup_order, chain_siblings, keyword_vocab]
+ALL = [three_way, lookup_order, chain_siblings, keyword_vocab]  # context_reset, idmap_order appended below
 
 
 def argswap_scope(ctx, repo, scope, rule="F21"):
@@ -280,3 +280,76 @@ def argswap_scope(ctx, repo, scope, rule="F21"):
                             bad.append((a, ids[j]))
                     if any(x is not None and x in pos for x in ids):
                         ctx.ob(rule, f.where, f"{norm(c.func)}({', '.join(str(x) for x in ids)}) vs parameters {pos[:len(ids)]}", not bad, "" if not bad else f"arguments {bad[0][0]} and {bad[0][1]} are passed crosswise")
+
+
+# ---------------------------------------------------------------------------
+# FEA-ctx: statements that switch the rule context close the anonymous lookup being collected
+# ---------------------------------------------------------------------------
+CTX_SWITCHES = ("start_feature", "end_feature", "start_lookup_block", "end_lookup_block", "add_lookup_call", "set_language", "set_script")
+
+
+def context_reset(ctx, repo):
+    ctx.rule("FEA-ctx", "every Builder method that switches feature / lookup block / script / language, or references a named lookup, resets cur_lookup_ unconditionally, so rules that follow start a new lookup instead of being merged into the one before the switch", floor=7)
+    mod = repo.mod("feaLib/builder.py")
+    for name in CTX_SWITCHES:
+        f = mod.func("Builder." + name)
+        stores = [st for st in walk_no_nested(f.node) if isinstance(st, ast.Assign) and norm(st.targets[0]) == "self.cur_lookup_" and norm(st.value) == "None"]
+        ok = bool(stores) and any(not [1 for t, pol in guard_conditions(st)] for st in stores)
+        ctx.ob("FEA-ctx", f.where, "self.cur_lookup_ = None (unconditional)", ok, "" if ok else "rules after this statement are appended to the lookup collected before it")
+    # the collector itself: get_lookup_ reuses cur_lookup_ only for the same class, flags and mark filter set
+    g = mod.func("Builder.get_lookup_")
+    conj = []
+    for n in walk_no_nested(g.node):
+        if isinstance(n, ast.If) and "self.cur_lookup_" in norm(n.test):
+            conj = [norm(v) for v in (n.test.values if isinstance(n.test, ast.BoolOp) and isinstance(n.test.op, ast.And) else [n.test])]
+            break
+    tests = conj
+
+    def has(*parts):
+        return any(all(p in c for p in parts) and ("==" in c or "isinstance" in c or " is " in c) for c in conj)
+
+    ok = has("builder_class") and has(".lookupflag", "self.lookupflag_") and has(".markFilterSet", "self.lookupflag_markFilterSet_")
+    ctx.ob("FEA-ctx", g.where, "cur_lookup_ reused only for the same builder class, lookup flag and mark filter set", ok, "" if ok else f"reuse test is {tests[:2]}")
+
+
+# ---------------------------------------------------------------------------
+# IDMAP: dicts that hand out consecutive ids are serialised in id order
+# ---------------------------------------------------------------------------
+def idmap_order(ctx, repo, rels=("feaLib/builder.py", "otlLib/builder.py")):
+    ctx.rule("IDMAP", "a dict that hands out consecutive ids (d[key] = len(d) [+ k]) is turned into a positional list only in id order: plain insertion-order iteration or sorted(..., key=<the id>); sorting by key (or with no key) renumbers the entries", floor=2)
+    for rel in rels:
+        mod = repo.mod(rel)
+        idmaps = {}  # normalised dict expr -> where
+        for q, f in sorted(mod.funcs.items()):
+            lens = {}  # local name -> dict expr it measures
+            for st in walk_no_nested(f.node):
+                if isinstance(st, ast.Assign) and len(st.targets) == 1:
+                    v = st.value
+                    if isinstance(v, ast.BinOp) and isinstance(v.op, ast.Add) and isinstance(v.right, ast.Constant):
+                        v = v.left
+                    if isinstance(v, ast.Call) and call_name(v) == "len" and len(v.args) == 1:
+                        d = norm(v.args[0])
+                        t = st.targets[0]
+                        if isinstance(t, ast.Name):
+                            lens[t.id] = d
+                        elif isinstance(t, ast.Subscript) and norm(t.value) == d:
+                            idmaps[d] = f.where
+                    elif isinstance(st.value, ast.Name) and st.value.id in lens and isinstance(st.targets[0], ast.Subscript) and norm(st.targets[0].value) == lens[st.value.id]:
+                        idmaps[lens[st.value.id]] = f.where
+        for d, where in sorted(idmaps.items()):
+            if not d.startswith("self."):
+                continue  # a local map cannot be consumed elsewhere; its users are in the same function and read values by key
+            uses = 0
+            for q, f in sorted(mod.funcs.items()):
+                for c in calls_in(f.node):
+                    if call_name(c) == "sorted" and c.args and norm(c.args[0]) in (d, d + ".items()", d + ".keys()"):
+                        uses += 1
+                        key = [k.value for k in c.keywords if k.arg == "key"]
+                        byid = False
+                        if key:
+                            kn = norm(key[0])
+                            byid = kn in (d + ".get", d + ".__getitem__") or (isinstance(key[0], ast.Lambda) and isinstance(key[0].body, ast.Subscript) and norm(key[0].body.slice) == "1" and norm(c.args[0]).endswith(".items()")) or kn == "itemgetter(1)" or kn == "operator.itemgetter(1)"
+                        ctx.ob("IDMAP", f.where, norm(c)[:120], byid, "" if byid else f"{d} hands out ids by insertion ({where}); this sort orders by the key, so positions no longer equal the ids")
+            ctx.ob("IDMAP", where, f"{d}: id map with {uses} sorted consumer(s)", True)
+
+ALL += [context_reset, idmap_order]
